@@ -32,6 +32,26 @@ def _sl(st, v):
     raise X.Unsupported(f"not a list of str: {o.kind}")
 
 
+def acc(lc, hint=None):
+    """The text accumulator of the loop: the parameter / local named `hint` if it is a str list, else the unique
+    local (not a parameter of the contract) that holds a list of str (the most recently created one when there
+    are several) -- so renaming the accumulator re-verifies."""
+    def is_strlist(v):
+        if not isinstance(v, VRef):
+            return False
+        o = lc.st.heap.get(v.ref)
+        return o is not None and (o.kind == "slist" or (o.kind == "list" and o.data is not None and all(isinstance(x, VStr) for x in o.data)))
+    if hint:
+        v = lc.st.lookup(hint)
+        if v is not None and is_strlist(v):
+            return v
+    params = {p[0] for p in lc.ex.contract.params}
+    cands = {k: v for k, v in lc.st.frame.env.items() if k not in params and is_strlist(v)}
+    if not cands:
+        raise X.Unsupported("text accumulator not identified")
+    return max(cands.values(), key=lambda v: v.ref)          # several: the most recently created list (innermost accumulator)
+
+
 def cat_of(st, v):
     return _sl(st, v)[1]
 
@@ -106,7 +126,7 @@ def odf_contracts():
         cfg = odf_cfg({k: lc[k] for k in ODF_KW + ["skip_tags"]})
         old = z3.String("parts.cat")            # value at function entry (p_strlist names it)
         return Conj([("parts==old+text+items-of-processed-children",
-                      cat_of(lc.st, lc["parts"]) == cc(old, TEXT(e), ODF_KIDS(e, lc.i, *cfg)))])
+                      cat_of(lc.st, acc(lc, "parts")) == cc(old, TEXT(e), ODF_KIDS(e, lc.i, *cfg)))])
 
     append = FnContract(
         target=f"{SHARED}::_append_element_text",
@@ -281,14 +301,14 @@ def docx_contracts():
 
     def kids_inv(var):
         def inv(lc):
-            e, inc = lc[var].t, lc["include_formulas"].t
-            cur = cat_of(lc.st, lc["parts"])
+            e, inc = (lc.seq.t if var is None else lc[var].t), lc["include_formulas"].t
+            cur = cat_of(lc.st, acc(lc, "parts"))
             return Conj([(nm, h(cur) == cc(h(OLD), D.KIDS(e, lc.i, inc))) for nm, D, h in DX_IMAGES])
         return inv
 
     def run_inv(lc):
         e, inc = lc["elem"].t, lc["include_formulas"].t
-        cur = cat_of(lc.st, lc["parts"])
+        cur = cat_of(lc.st, acc(lc, "parts"))
         last = TAG(CH(e, z3.simplify(lc.i - 1)))
         return Conj([(f"{nm}[{cn}]", z3.Implies(g(last), h(cur) == cc(h(OLD), D.RUN(e, lc.i, inc))))
                      for nm, D, h in DX_IMAGES for cn, g in RUN_CHILD_CASES])
@@ -305,7 +325,7 @@ def docx_contracts():
         params=[("elem", p_elem()), ("parts", p_strlist()), ("include_formulas", p_bool())],
         ensures=[(f"{nm}(parts)==old+dx_{nm}(elem)[{cn}]", post(nm, D, h, g)) for nm, D, h in DX_IMAGES for cn, g in ELEM_CASES],
         modifies=("parts",),
-        loops={0: LoopSpec(inv=kids_inv("choice"), label="choice-children"),
+        loops={0: LoopSpec(inv=kids_inv(None), label="choice-children"),
                1: LoopSpec(inv=run_inv, label="run-children"),
                2: LoopSpec(inv=kids_inv("elem"), label="children")},
     )
@@ -314,7 +334,7 @@ def docx_contracts():
 
     def par_inv(lc):
         e, inc = lc["paragraph"].t, lc["include_formulas"].t
-        cur = cat_of(lc.st, lc["parts"])
+        cur = cat_of(lc.st, acc(lc))
         return Conj([(nm, h(cur) == D.KIDS(e, lc.i, inc)) for nm, D, h in DX_IMAGES])
 
     para = FnContract(
@@ -346,9 +366,9 @@ def docx_contracts():
     def body_inv(lc):
         e, inc = lc["body"].t, lc["include_formulas"].t
         last = TAG(CH(e, z3.simplify(lc.i - 1)))
-        n, cat, _lead = _sl(lc.st, lc["all_text"])
+        n, cat, _lead = _sl(lc.st, acc(lc))
         goals = [("nw", NW(cat) == BODYN(e, lc.i, inc)),
-                 ("sq", lead_of(lc.st, lc["all_text"]) == BODYS(e, lc.i, inc)),
+                 ("sq", lead_of(lc.st, acc(lc)) == BODYS(e, lc.i, inc)),
                  ("pieces-not-blank", (n == 0) == (NW(cat) == lit("")))]
         return Conj([(f"{nm}[{cn}]", z3.Implies(g(last), t)) for nm, t in goals for cn, g in BODY_CHILD_CASES])
 
@@ -469,14 +489,14 @@ def dt_contracts(reg):
 
     def f_inv(lc):
         b = base(lc, lc.st)
-        return Conj([("nw", NW(cat_of(lc.st, lc["parts"])) == cc(NW(b), FN_N(lc.i))),
-                     ("sq", lead_of(lc.st, lc["parts"]) == cc(lead_str(b), FN_S(lc.i)))])
+        return Conj([("nw", NW(cat_of(lc.st, acc(lc))) == cc(NW(b), FN_N(lc.i))),
+                     ("sq", lead_of(lc.st, acc(lc)) == cc(lead_str(b), FN_S(lc.i)))])
 
     def i_inv(lc):
         b = base(lc, lc.st)
         nf = z3.Int("self.formulas.len")
-        return Conj([("nw", NW(cat_of(lc.st, lc["parts"])) == cc(NW(b), FN_N(nf), IN_N(lc.i))),
-                     ("sq", lead_of(lc.st, lc["parts"]) == cc(lead_str(b), FN_S(nf), IN_S(lc.i)))])
+        return Conj([("nw", NW(cat_of(lc.st, acc(lc))) == cc(NW(b), FN_N(nf), IN_N(lc.i))),
+                     ("sq", lead_of(lc.st, acc(lc)) == cc(lead_str(b), FN_S(nf), IN_S(lc.i)))])
 
     def gt_nw(c):
         b, nf, ni, inc = base(c.args, c.entry), z3.Int("self.formulas.len"), z3.Int("self.images.len"), c.args["include_image_captions"].t
@@ -578,7 +598,7 @@ def html_contracts(reg):
     def gnt_inv(lc):
         n = lc["node"].t
         # `if node.get("text")` : an empty text contributes nothing either way
-        return Conj([("parts==text+texts-of-processed-children", cat_of(lc.st, lc["parts"]) == cc(H_TEXT(n), HT_KIDS(n, lc.i)))])
+        return Conj([("parts==text+texts-of-processed-children", cat_of(lc.st, acc(lc)) == cc(H_TEXT(n), HT_KIDS(n, lc.i)))])
 
     gnt = FnContract(
         target=f"{HTML}::_HtmlTextExtractor._get_node_text",
@@ -597,7 +617,7 @@ def html_contracts(reg):
     def pn_inv(var):
         def inv(lc):
             n = lc["node"].t
-            return Conj([("nw", NW(cat_of(lc.st, lc[var])) == cc(NW(H_TEXT(n)), PN_KIDS(n, lc.i)))])
+            return Conj([("nw", NW(cat_of(lc.st, acc(lc))) == cc(NW(H_TEXT(n)), PN_KIDS(n, lc.i)))])
         return inv
 
     pn = FnContract(
@@ -611,7 +631,7 @@ def html_contracts(reg):
         result_maker=lambda ex, st, ctx: VStr(z3.String(fresh_name("rendered"))),
         raises=[Raises("Exception", sub=True)],
         modifies=("self",),
-        loops={0: LoopSpec(inv=pn_inv("text_parts"), label="li-children"), 1: LoopSpec(inv=pn_inv("result_parts"), label="children")},
+        loops={0: LoopSpec(inv=pn_inv(None), label="li-children"), 1: LoopSpec(inv=pn_inv(None), label="children")},
         note="requires: the node is not of a removed tag (class invariant of the tree the builder makes, C17)",
     )
     return [gnt, extract_table, format_table, pn]
